@@ -29,7 +29,7 @@ func WrapError(err error, loc Locatable) Error {
 	if e, ok := err.(Error); ok {
 		// re-wrap the error, if the inner layer implemented the locatable interface
 		// but didn't actually provide any information
-		if e.Path() != "" || loc.SourceLocation().IsZero() {
+		if e.Path() != "" || e.LineNumber() != 0 || loc.SourceLocation().IsZero() {
 			return e
 		}
 		if e.Cause() != nil {
